@@ -12,6 +12,7 @@ EXPLANATION = (
     "reference at every nesting in every definition and the call variants), WARN (main::aot prints one line per map entry with the label of that map, "
     "exempts only `_`, and the warning blocks contain no exit / return / `?` and touch nothing the emitter reads). "
     "NOT decided: set equality 'exactly these names' for all reference structures (value-level)."
+    " TOPO (shared with C02): a definition expanded before the definitions it uses leaves their references behind, which are then warned about as Undefined."
 )
 ASSUMPTIONS = ["rustc accepts the tree", "UstrMap<HumanSpan> holds one entry per name (type fact read from the struct definition)"]
 
